@@ -17,7 +17,9 @@ ActiveSet(p) == {p.members[i].id : i \in DOMAIN p.members}
 C14Step(m, o) ==
     LET act0 == ActiveSet(o.pre)
         act1 == ActiveSet(o.post)
-        stable == act0 = act1 /\ DOMAIN m.since = act0
+        \* "while the set of known members is stable": no record added, forgotten or changing between active and Down
+        Known(p) == {<<p.state[i].id, IsActive(p.state[i])>> : i \in DOMAIN p.state}
+        stable == Known(o.pre) = Known(o.post) /\ DOMAIN m.since = act0
         isRound == o.call = "timer" /\ o.args.k = "Probe" /\ o.args.tok = o.hpre.tok /\ o.hpre.conn = "C"
         pings == SelectSeq(OSends(o.out), LAMBDA s : s.d.hok /\ s.d.h.msg.k = "Ping")
         n == Cardinality(act0)
@@ -27,9 +29,9 @@ C14Step(m, o) ==
          LET dst == IF pings = <<>> THEN NoId ELSE pings[1].dst
              base == IF stable THEN m.since ELSE [i \in act0 |-> 0]
              since == [i \in act0 |-> IF i = dst THEN 0 ELSE base[i] + 1]
-             v == V(act0 # {} => Len(pings) = 1, "probe-round-did-not-ping-exactly-one-member")
+             v == V((act0 # {} /\ o.res # "Err:Encode") => Len(pings) = 1, "probe-round-did-not-ping-exactly-one-member")
                   \cup V(pings # <<>> => dst \in act0, "Ping-sent-to-a-member-that-is-not-active")
                   \cup V(pings # <<>> => Addr(dst) # Addr(o.pre.id), "Ping-sent-to-the-instance-itself")
                   \cup V(\A i \in act0 : since[i] <= 2 * n - 2, "active-member-not-pinged-within-2n-1-rounds")
-         IN [since |-> IF act1 = act0 THEN since ELSE [i \in act1 |-> 0], v |-> v]
+         IN [since |-> IF Known(o.pre) = Known(o.post) THEN since ELSE [i \in act1 |-> 0], v |-> v]
 =============================================================================
